@@ -1,6 +1,6 @@
 import Afkak.Monitor.C17
 /-!
-# C17 — full-strength statements that are NOT proved (and why)
+# C17 — full-strength statements (not proved, and why — or proved since, where noted)
 -/
 namespace Afkak.Props.C17.Open
 open Afkak.Group Afkak.Consts Afkak.Monitor.C17
@@ -26,11 +26,11 @@ def okEv : Ev → Bool
 /-- Full strength: once failures cease, EVERY started, not stopping member (with no `stop()` waiting
     for its consumers) reaches stable membership by a failure-free continuation of at most
     `6 + #consumers` events.  The code violates it (finding F12, non-Kafka half: the member is idle
-    for ever): `C17_rejoins_bounded_counterexample`.  Proved (`C17_rejoins_bounded_partial`) when no
-    non-Kafka error escaped the join and the member is not in the middle of `on_join_prepare`; for a
-    drain in progress the converse drain invariant (every awaited shutdown Deferred belongs to a
-    consumer that is still draining) is not proved — the full-stack stage checks that case on the
-    code (every member not stopped is stable within 200 virtual seconds after the last fault). -/
+    for ever): `C17_rejoins_bounded_counterexample`.  It stays open ONLY because of that finding:
+    `C17_rejoins_bounded_no_escape` proves exactly this conclusion for every history in which no
+    non-Kafka error escaped the join (a decidable predicate of the event list), and
+    `C17_rejoins_bounded_partial` for every history that ends not idle — both INCLUDING a member in
+    the middle of `on_join_prepare` (converse drain invariant `CInv`, proved). -/
 def C17_rejoins_bounded : Prop :=
   ∀ (cfg : Cfg) (evs : List Ev), (final cfg evs).started = true → (final cfg evs).stopping = false →
     (final cfg evs).stopDraining = false →
@@ -39,9 +39,8 @@ def C17_rejoins_bounded : Prop :=
 
 /-- A join in flight always has something to wake it (monitor `joinProgress`, run on every
     implementation trace): one of the coroutine's client requests is outstanding or a consumer is
-    draining.  On model traces the request-count half follows the pattern of `C16_one_join`; the
-    drain half needs the converse drain invariant (while `on_join_prepare` waits, an awaited
-    consumer is still draining), not proved. -/
+    draining.  PROVED: `C17_join_progress` in `AfkakProps/C17.lean` (the statement is kept here because
+    the theorem is stated against it). -/
 def C17_join_progress : Prop := ∀ (cfg : Cfg) (evs : List Ev), joinProgress (toMSteps (run cfg evs)) = true
 
 end Afkak.Props.C17.Open
